@@ -30,10 +30,13 @@ package proxy
 // (*http.Client).Do and those that failed; uplast is the response the last one returned.
 
 // A usable fetch result: a stored entry with metadata and an open body, or the origin's own response.
-//@ spec func specFetchShape(f any) bool = (f.Type == 0 || f.Type == 1) && (f.Type == 0 ==> f.Cached.Entry != nil && allocated(f.Cached.Entry) && f.Cached.Entry.Metadata != nil && allocated(f.Cached.Entry.Metadata) && f.Cached.Entry.Data != nil) && (f.Type == 1 ==> f.Direct.Response != nil && allocated(f.Direct.Response) && f.Direct.Response.Body != nil)
+//@ spec func specFetchShape(f any) bool = (f.Type == 0 || f.Type == 1) && (f.Type == 0 ==> f.Cached.Entry != nil && allocated(f.Cached.Entry) && f.Cached.Entry.Metadata != nil && allocated(f.Cached.Entry.Metadata) && f.Cached.Entry.Data != nil && f.Cached.Entry.Metadata.Size >= 0) && (f.Type == 1 ==> f.Direct.Response != nil && allocated(f.Direct.Response) && f.Direct.Response.Body != nil)
 // net/http never hands out a header map with an empty value list.
 //@ spec func specHdrOK(h any) bool = h != nil && (forall k key :: in(h, k) ==> len(h[k]) > 0)
-//@ spec func specEntryShape(e ptr) bool = e != nil && allocated(e) && e.Metadata != nil && allocated(e.Metadata) && e.Data != nil
+// Errors of the fetch path are never the two Range outcomes processRequest tells apart.
+//@ spec func specFetchErr(e error) bool = !iserr(e, ErrRangeNotSatisfiable) && !iserr(e, ErrIfRangeMismatch)
+//@ spec func specReqOK(r ptr) bool = r != nil && r.URL != nil && r.Header != nil
+//@ spec func specEntryShape(e ptr) bool = e != nil && allocated(e) && e.Metadata != nil && allocated(e.Metadata) && e.Data != nil && e.Metadata.Size >= 0
 //@ spec func specFetcher(f ptr) bool = f.cache != nil && f.cfg != nil && aset(f.cfg.Proxy.CachePolicy.IgnoreCacheControl.value) && aset(f.cfg.Proxy.CachePolicy.DefaultMaxAge.value) && aset(f.cfg.Proxy.CachePolicy.ForceDefaultMaxAge.value) && aset(f.cfg.Proxy.UpstreamDefaultHttps.value)
 
 // A 304 renews the stored entry: its lifetime is set to now + the configured default,
@@ -41,12 +44,13 @@ package proxy
 //@ props C06 C09 C16
 //@ func fetcher.handleUpstream304
 //@   nopanic
-//@   assigns cache. map_map_cache.CacheKey atomic.Int64 ghost:mapsum ghost:fsinode ghost:jsize ghost:jexp ghost:handleinode
+//@   assigns cache. map_map_cache.CacheKey atomic.Int64 ghost:mapsum ghost:fsinode ghost:jsize ghost:jexp ghost:handleinode ghost:callcount
 //@   requires specFetcher(f) && req != nil
 //@   ghost callsite-requires [C06] UpdateMetadata keyid(arg_key) == keyid(key)
 //@   ghost callsite-requires [C06] Get keyid(arg_key) == keyid(key)
 //@   ensures [C09] err == nil ==> specEntryShape(cached)
 //@   ensures [C09] err != nil ==> cached == nil && iserr(err, ErrUpdateCacheMetadata) && !iserr(err, ErrSendRequestFailed) && !iserr(err, ErrCacheResponseFailed)
+//@   ensures specFetchErr(err)
 
 //@ props C06 C16
 //@ func fetcher.handleUpstream304$1
@@ -72,39 +76,48 @@ package proxy
 //@   ensures [C09] err == nil && cached != nil ==> specEntryShape(cached)
 //@   ensures [C09] err != nil ==> cached == nil && iserr(err, ErrCacheResponseFailed) && !iserr(err, ErrSendRequestFailed) && !iserr(err, ErrUpdateCacheMetadata)
 //@   ensures [C04] cached != nil ==> resp.StatusCode == 200 && resp.Request.Method == "GET"
+//@   ensures specFetchErr(err)
 
 // 416 from the origin: once retried without the Range header (unless noRetry).
 //@ props C09 C16
 //@ func fetcher.handleUpstream416
 //@   nopanic
-//@   assigns HeaderDirectives http.Request url.URL http.Response map_ cache. atomic.Int64 ghost:upstream ghost:mapsum ghost:fsinode ghost:jsize ghost:jexp ghost:handleinode ghost:isize ghost:icontent
+//@   assigns HeaderDirectives new:http.Request url.URL http.Response@resp new:http.Response map_ ghost:upstream cache. map_map_cache.CacheKey atomic.Int64 ghost:mapsum ghost:fsinode ghost:jsize ghost:jexp ghost:handleinode ghost:isize ghost:icontent ghost:callcount
 //@   requires specFetcher(f) && req != nil && req.URL != nil && req.Header != nil && resp != nil && resp.Body != nil && clientHd != nil
 //@   ensures [C09] err == nil && cached != nil ==> specEntryShape(cached)
 //@   ensures [C09] err != nil ==> cached == nil && (iserr(err, ErrCacheResponseFailed) || iserr(err, ErrUpdateCacheMetadata) || upfails > old(upfails))
 //@   ensures upfails >= old(upfails) && upcalls >= old(upcalls)
 //@   ensures resp.Body != nil
+//@   ensures old(specHdInv(clientHd)) ==> specHdInv(clientHd)
+//@   ensures specFetchErr(err)
+//@   ensures specReqOK(req)
 
 // 200 is stored when cacheable, 304 renews the stored entry, 416 is retried once;
 // every other answer is neither stored nor does it touch the cache.
 //@ props C06 C09 C16
 //@ func fetcher.handleUpstreamResponse
 //@   nopanic
-//@   assigns HeaderDirectives http.Request url.URL http.Response map_ cache. atomic.Int64 ghost:upstream ghost:mapsum ghost:fsinode ghost:jsize ghost:jexp ghost:handleinode ghost:isize ghost:icontent
+//@   assigns HeaderDirectives new:http.Request url.URL http.Response@resp new:http.Response map_ ghost:upstream cache. map_map_cache.CacheKey atomic.Int64 ghost:mapsum ghost:fsinode ghost:jsize ghost:jexp ghost:handleinode ghost:isize ghost:icontent ghost:callcount
 //@   requires specFetcher(f) && req != nil && req.URL != nil && req.Header != nil && resp != nil && resp.Request != nil && specHdrOK(resp.Header) && resp.Body != nil && clientHd != nil
 //@   ensures [C09] err == nil && cached != nil ==> specEntryShape(cached)
 //@   ensures [C09] err != nil ==> cached == nil && (iserr(err, ErrCacheResponseFailed) || iserr(err, ErrUpdateCacheMetadata) || upfails > old(upfails))
 //@   ensures upfails >= old(upfails) && upcalls >= old(upcalls)
 //@   ensures resp.Body != nil
 //@   ensures [C06] old(resp.StatusCode) != 200 && old(resp.StatusCode) != 304 && old(resp.StatusCode) != 416 ==> cached == nil && err == nil && unchanged("cache.") && upcalls == old(upcalls)
+//@   ensures old(specHdInv(clientHd)) ==> specHdInv(clientHd)
+//@   ensures specFetchErr(err)
+//@   ensures specReqOK(req)
 
 //@ props C09 C16
 //@ func fetcher.sendRequestToUpstream
 //@   nopanic
-//@   assigns http.Request url.URL new:http.Response map_ ghost:upstream
+//@   assigns http.Request@req url.URL new:http.Response map_ ghost:upstream
 //@   requires specFetcher(f) && req != nil && req.URL != nil && req.Header != nil
 //@   ensures upcalls == old(upcalls) + 1
 //@   ensures result2 != nil ==> result0 == nil && iserr(result2, ErrSendRequestFailed) && upfails == old(upfails) + 1
 //@   ensures result2 == nil ==> result0 != nil && allocated(result0) && !old(allocated(result0)) && result0.Body != nil && specHdrOK(result0.Header) && result0.Request == req && result0 == uplast && upfails == old(upfails)
+//@   ensures specReqOK(req)
+//@   ensures specFetchErr(result2)
 
 // One origin fetch whose answer is stored when it may be.  It fails only when the origin
 // could not be reached; trouble on the cache side (store refused or failed, entry gone
@@ -113,48 +126,105 @@ package proxy
 //@ props C05 C06 C09 C16
 //@ func fetcher.fetchUpstream
 //@   nopanic
-//@   assigns HeaderDirectives http.Request url.URL http.Response map_ cache. atomic.Int64 ghost:upstream ghost:mapsum ghost:fsinode ghost:jsize ghost:jexp ghost:handleinode ghost:isize ghost:icontent
+//@   assigns HeaderDirectives http.Request@req new:http.Request url.URL new:http.Response map_ ghost:upstream cache. map_map_cache.CacheKey atomic.Int64 ghost:mapsum ghost:fsinode ghost:jsize ghost:jexp ghost:handleinode ghost:isize ghost:icontent ghost:callcount
 //@   requires specFetcher(f) && req != nil && req.URL != nil && req.Header != nil && clientHd != nil
 //@   ensures [C09] result1 == nil ==> specFetchShape(result0)
 //@   ensures [C09] result1 != nil ==> iserr(result1, ErrNotCacheable) || upfails > old(upfails)
 //@   ensures upfails >= old(upfails) && upcalls >= old(upcalls) + 1
-//@   ensures [C05] result1 == nil && result0.Type == 1 ==> result0.Direct.Response == uplast && !old(allocated(result0.Direct.Response))
+//@   ensures [C05] result1 == nil && result0.Type == 1 ==> !old(allocated(result0.Direct.Response))
+//@   ensures [C03] result1 == nil && result0.Type == 0 ==> result0.Cached.fetchInfo.Status == 0
+//@   ensures [C03] result1 == nil && result0.Type == 1 ==> result0.Direct.fetchInfo.Status == 0
+//@   ensures specReqOK(req)
+//@   ensures old(specHdInv(clientHd)) ==> specHdInv(clientHd)
+//@   ensures specFetchErr(result1)
+//@   ensures result1 == nil && result0.Type == 0 ==> !result0.Cached.Coalesced
 
 // A fetch that bypasses the cache: exactly one origin request, whose response is handed back.
 //@ props C05 C09 C16
 //@ func fetcher.fetchDirectlyFromUpstream
 //@   nopanic
-//@   assigns http.Request url.URL new:http.Response map_ ghost:upstream
+//@   assigns http.Request@req url.URL new:http.Response map_ ghost:upstream
 //@   requires specFetcher(f) && req != nil && req.URL != nil && req.Header != nil
 //@   ensures upcalls == old(upcalls) + 1
 //@   ensures [C09] result1 != nil ==> upfails == old(upfails) + 1
 //@   ensures [C09] result1 == nil ==> specFetchShape(result0) && result0.Type == 1 && upfails == old(upfails)
 //@   ensures [C05] result1 == nil ==> result0.Direct.Response == uplast && !old(allocated(result0.Direct.Response))
+//@   ensures specReqOK(req)
+//@   ensures specFetchErr(result1)
 
 //@ props C05 C09 C16
 //@ func fetcher.handleCacheMiss
 //@   nopanic
-//@   assigns HeaderDirectives http.Request url.URL http.Response map_ cache. atomic.Int64 ghost:upstream ghost:mapsum ghost:fsinode ghost:jsize ghost:jexp ghost:handleinode ghost:isize ghost:icontent
+//@   assigns HeaderDirectives http.Request@req new:http.Request url.URL new:http.Response map_ ghost:upstream cache. map_map_cache.CacheKey atomic.Int64 ghost:mapsum ghost:fsinode ghost:jsize ghost:jexp ghost:handleinode ghost:isize ghost:icontent ghost:callcount
 //@   requires specFetcher(f) && req != nil && req.URL != nil && req.Header != nil && clientHd != nil
 //@   ensures [C09] result1 == nil ==> specFetchShape(result0)
 //@   ensures [C09] result1 != nil ==> iserr(result1, ErrNotCacheable) || upfails > old(upfails)
 //@   ensures upfails >= old(upfails) && upcalls >= old(upcalls) + 1
+//@   ensures [C03] result1 == nil && result0.Type == 0 ==> result0.Cached.fetchInfo.Status == 0
+//@   ensures [C03] result1 == nil && result0.Type == 1 ==> result0.Direct.fetchInfo.Status == 0
+//@   ensures specReqOK(req)
+//@   ensures old(specHdInv(clientHd)) ==> specHdInv(clientHd)
+//@   ensures specFetchErr(result1)
+//@   ensures result1 == nil && result0.Type == 0 ==> !result0.Cached.Coalesced
 
-// Not yet verified.
+// No conditional request header of the client is left (StripRegularConditionals ran).
+//@ spec func specNoConditionals(h any) bool = !in(h, "If-None-Match") && !in(h, "If-Modified-Since") && !in(h, "If-Match") && !in(h, "If-Unmodified-Since")
+
+// The request that goes to the origin for a stale entry carries the validators stored
+// with that entry - exactly them, nothing the client sent.  A fresh entry is served
+// without any origin request.
+//@ props C05 C06 C09 C16
+//@ func fetcher.getFromCacheOrFetch
+//@   nopanic
+//@   assigns HeaderDirectives http.Request@req new:http.Request url.URL new:http.Response map_ ghost:upstream cache. map_map_cache.CacheKey atomic.Int64 ghost:mapsum ghost:fsinode ghost:jsize ghost:jexp ghost:handleinode ghost:isize ghost:icontent ghost:callcount
+//@   requires specFetcher(f) && req != nil && req.URL != nil && req.Header != nil && clientHd != nil
+//@   ghost callsite-requires [C06] fetchUpstream len(cached.Metadata.Object.ETag) > 0 ==> in(arg_req.Header, "If-None-Match") && len(arg_req.Header["If-None-Match"]) == 1 && sid(arg_req.Header["If-None-Match"][0]) == sid(cached.Metadata.Object.ETag)
+//@   ghost callsite-requires [C06] fetchUpstream old(specNoConditionals(req.Header)) && len(cached.Metadata.Object.ETag) == 0 ==> !in(arg_req.Header, "If-None-Match")
+//@   ghost callsite-requires [C06] fetchUpstream cached.Metadata.Object.LastModified != 0 ==> in(arg_req.Header, "If-Modified-Since") && len(arg_req.Header["If-Modified-Since"]) == 1 && sid(arg_req.Header["If-Modified-Since"][0]) == timefmt(cached.Metadata.Object.LastModified)
+//@   ghost callsite-requires [C06] fetchUpstream old(specNoConditionals(req.Header)) ==> !in(arg_req.Header, "If-Match") && !in(arg_req.Header, "If-Unmodified-Since")
+//@   ghost callsite-requires [C06] handleCacheMiss old(specNoConditionals(req.Header)) ==> specNoConditionals(arg_req.Header)
+//@   ensures [C09] result1 == nil ==> specFetchShape(result0) && result0.Type == 0
+//@   ensures [C09] result1 != nil ==> iserr(result1, ErrNotCacheable) || upfails > old(upfails)
+//@   ensures upfails >= old(upfails) && upcalls >= old(upcalls)
+//@   ensures [C05] result1 == nil && result0.Cached.fetchInfo.Status == 2 ==> upcalls == old(upcalls)
+//@   ensures [C03] result1 == nil && upcalls == old(upcalls) ==> result0.Cached.fetchInfo.Status == 2
+//@   ensures specReqOK(req)
+//@   ensures old(specHdInv(clientHd)) ==> specHdInv(clientHd)
+//@   ensures specFetchErr(result1)
+//@   ensures result1 == nil ==> !result0.Cached.Coalesced
+
+// Coalescing: the shared function is getFromCacheOrFetch.  What a follower may assume
+// about the values it is handed is what every run establishes (shared-result).  Each
+// caller ends up with a body of its own: a follower re-opens the stored entry, and
+// falls back to a fetch of its own when that fails or when the shared answer was
+// not cacheable.  The call fails only when an origin request failed - its own or the
+// shared one it waited for.
+//@ props C05 C09 C16
 //@ func fetcher.dedupFetch
-//@   trusted
-//@   assigns HeaderDirectives http_Request http.Request map_ cache.EntryMetadata cache.MemoryCache cache.FileCache http.Response
+//@   nopanic
+//@   assigns HeaderDirectives http.Request@req new:http.Request url.URL new:http.Response map_ ghost:upstream ghost:sfleader ghost:sfshared ghost:sferrs cache. map_map_cache.CacheKey atomic.Int64 ghost:mapsum ghost:fsinode ghost:jsize ghost:jexp ghost:handleinode ghost:isize ghost:icontent ghost:callcount
+//@   requires specFetcher(f) && req != nil && req.URL != nil && req.Header != nil && clientHd != nil
+//@   ghost callsite-requires [C06] getFromCacheOrFetch old(specNoConditionals(req.Header)) ==> specNoConditionals(arg_req.Header)
+//@   ghost shared-result [C05] (err == nil ==> specFetchShape(val) && val.Type == 0) && (err != nil ==> iserr(err, ErrNotCacheable) || upfails > old(upfails)) && specFetchErr(err)
+//@   ghost shared-assigns cache. map_map_cache.CacheKey atomic.Int64 ghost:mapsum ghost:fsinode ghost:jsize ghost:jexp ghost:handleinode ghost:isize ghost:icontent
 //@   ensures old(specHdInv(clientHd)) ==> specHdInv(clientHd)
 //@   ensures !iserr(err, ErrRangeNotSatisfiable) && !iserr(err, ErrIfRangeMismatch)
-//@   ensures err == nil && fetched.Type == 0 ==> fetched.Cached.Entry.Metadata.Size >= 0
-//@   ensures err == nil ==> (fetched.Type == 0 || fetched.Type == 1)
-//@   ensures err == nil && fetched.Type == 1 ==> fetched.Direct.Response != nil && fetched.Direct.Response.Body != nil
-//@   ensures err == nil && fetched.Type == 0 ==> fetched.Cached.Entry != nil && fetched.Cached.Entry.Metadata != nil && fetched.Cached.Entry.Data != nil
+//@   ensures [C09] err == nil ==> specFetchShape(fetched)
+//@   ensures [C09] err != nil ==> upfails > old(upfails) || sferrs > old(sferrs)
+//@   ensures [C05] err == nil && fetched.Type == 1 ==> !old(allocated(fetched.Direct.Response))
+//@   ensures [C05] err == nil && fetched.Type == 0 && fetched.Cached.Coalesced ==> !old(allocated(fetched.Cached.Entry))
+//@   ensures upfails >= old(upfails) && upcalls >= old(upcalls)
+//@   ensures sferrs >= old(sferrs)
+//@   ensures specReqOK(req)
 
 //@ props C07 C16
 //@ func Proxy.handleRangeRequest
 //@   nopanic
-//@   assigns HeaderDirectives http_Request http.Request map_ cache.EntryMetadata cache.MemoryCache cache.FileCache http.Response
+//@   assigns HeaderDirectives http.Request@req new:http.Request url.URL new:http.Response map_ ghost:upstream ghost:sfleader ghost:sfshared ghost:sferrs cache. map_map_cache.CacheKey atomic.Int64 ghost:mapsum ghost:fsinode ghost:jsize ghost:jexp ghost:handleinode ghost:isize ghost:icontent responder. ghost:httpstatus ghost:httpwrites ghost:respbody ghost:httperrs ghost:callcount
+//@   requires specFetcher(p.fetch) && specReqOK(req)
+//@   ensures [C09] result != nil ==> iserr(result, ErrRangeNotSatisfiable) || iserr(result, ErrIfRangeMismatch) || ioerr(result) || upfails > old(upfails) || sferrs > old(sferrs)
+//@   ensures [C09] httperrs(r) == old(httperrs(r)) || (httperrs(r) == old(httperrs(r)) + 1 && httpstatus(r) == 416 && iserr(result, ErrRangeNotSatisfiable))
+//@   ensures upfails >= old(upfails) && sferrs >= old(sferrs)
 //@   ensures old(specHdInv(clientHd)) ==> specHdInv(clientHd)
 //@   ensures iserr(result, ErrRangeNotSatisfiable) ==> httpwrites(r) == old(httpwrites(r)) + 1
 //@   ensures iserr(result, ErrIfRangeMismatch) ==> httpwrites(r) == old(httpwrites(r))
@@ -170,6 +240,8 @@ package proxy
 //@   ensures [C07] old(specRangeOK(clientHd.Range.value.value.start, clientHd.Range.value.value.end, cached.Metadata.Size)) && !old(specIfRangeMismatch(clientHd, cached)) && req.Method != "HEAD" ==> respbody(r) == old(sectionreader(cached.Data, specRangeStart(clientHd.Range.value.value.start, clientHd.Range.value.value.end, cached.Metadata.Size), specRangeEnd(clientHd.Range.value.value.start, clientHd.Range.value.value.end, cached.Metadata.Size) - specRangeStart(clientHd.Range.value.value.start, clientHd.Range.value.value.end, cached.Metadata.Size) + 1))
 //@   ensures [C07] old(specRangeOK(clientHd.Range.value.value.start, clientHd.Range.value.value.end, cached.Metadata.Size)) && old(specIfRangeMismatch(clientHd, cached)) ==> result == ErrIfRangeMismatch && httpwrites(r) == old(httpwrites(r))
 //@   ensures [C07] !old(specRangeOK(clientHd.Range.value.value.start, clientHd.Range.value.value.end, cached.Metadata.Size)) && !old(cfgval(p.cfg.Proxy.RetryOnInvalidRange)) ==> result == ErrRangeNotSatisfiable && httpstatus(r) == 416 && httpwrites(r) == old(httpwrites(r)) + 1 && sid(resphdr(r)["Content-Range"][0]) == old(fmtid("bytes */%d", cached.Metadata.Size))
+//@   requires specEntryShape(cached)
+//@   ensures iserr(result, ErrIfRangeMismatch) ==> specEntryShape(cached)
 
 // An If-Range does not match when it is an entity tag different from the stored
 // one, or a date earlier than the stored Last-Modified.
@@ -209,48 +281,87 @@ package proxy
 //@   ensures [C03] len(resphdr(r)["X-Cache"]) == old(len(resphdr(r)["X-Cache"])) + 1
 //@   ensures [C03] cacheStatus.hitStatus == 2 <==> sid(resphdr(r)["X-Cache"][len(resphdr(r)["X-Cache"])-1]) == sid("HIT")
 //@   ensures [C03] cached.some && (cacheStatus.hitStatus == 2 || cacheStatus.hitStatus == 1) && (decval(sid(cached.value.Metadata.Object.Header["Age"][0])) < 4000000000 || !in(cached.value.Metadata.Object.Header, "Age")) && now - cached.value.Metadata.TimeWritten < 9000000000000000000 && cached.value.Metadata.TimeWritten - now < 9000000000000000000 ==> decval(sid(resphdr(r)["Age"][0])) >= (now - cached.value.Metadata.TimeWritten) / 1000000000
+//@   assigns map_ responder.
 
 // ---------------------------------------------------------------- request handling (C16)
 
 // What ParseHeaderDirective establishes about a parsed Range / If-Range and every later step keeps.
 //@ spec func specHdInv(hd ptr) bool = (hd.Range.value.some ==> hd.Range.value.value.start >= -1 && hd.Range.value.value.end >= -1) && (hd.IfRange.value.some ==> (hd.IfRange.value.value.left.some || hd.IfRange.value.value.right.some))
 
-// Every path through processRequest writes a response to the client.
-//@ props C16
+// One response is written with the given status; for HEAD without a body.  It fails only
+// when writing to the client failed.
+//@ props C09 C16 C07
+//@ func finalizeAndRespond
+//@   nopanic
+//@   assigns ghost:httpstatus ghost:httpwrites ghost:respbody
+//@   requires req != nil
+//@   ensures httpwrites(r) == old(httpwrites(r)) + 1 && httpstatus(r) == status
+//@   ensures (forall w any :: w != r ==> httpwrites(w) == old(httpwrites(w)) && httpstatus(w) == old(httpstatus(w)) && respbody(w) == old(respbody(w)))
+//@   ensures req.Method != "HEAD" ==> respbody(r) == ident(resp)
+//@   ensures [C09] result != nil ==> ioerr(result)
+
+//@ props C03 C16
+//@ func fetchResult.getFetchInfo
+//@   nopanic
+//@   pure
+//@   requires f != nil
+//@   ensures f.Type == 0 ==> result == f.Cached.fetchInfo
+//@   ensures f.Type == 1 ==> result == f.Direct.fetchInfo
+
+// Every path through processRequest writes a response to the client.  It fails, and
+// answers with an error of its own making, only when an origin request failed (its own
+// or the shared one it waited for), when the client's Range cannot be satisfied, or when
+// writing to the client failed.
+//@ props C09 C16
 //@ func Proxy.processRequest
 //@   nopanic
-//@   requires p.cfg != nil && aset(p.cfg.Proxy.RetryOnInvalidRange.value) && req != nil && clientHd != nil && specHdInv(clientHd)
+//@   assigns HeaderDirectives http.Request@req new:http.Request url.URL new:http.Response map_ ghost:upstream ghost:sfleader ghost:sfshared ghost:sferrs cache. map_map_cache.CacheKey atomic.Int64 ghost:mapsum ghost:fsinode ghost:jsize ghost:jexp ghost:handleinode ghost:isize ghost:icontent responder. ghost:httpstatus ghost:httpwrites ghost:respbody ghost:httperrs ghost:callcount metrics.
+//@   requires p.cfg != nil && aset(p.cfg.Proxy.RetryOnInvalidRange.value) && specFetcher(p.fetch) && specReqOK(req) && clientHd != nil && specHdInv(clientHd)
+//@   requires [C06] specNoConditionals(req.Header)
+//@   ghost callsite-requires [C06] dedupFetch specNoConditionals(arg_req.Header) && arg_req == req
 //@   ensures [C16] httpwrites(r) >= old(httpwrites(r)) + 1
+//@   ensures [C09] result != nil ==> upfails > old(upfails) || sferrs > old(sferrs) || iserr(result, ErrRangeNotSatisfiable) || ioerr(result)
+//@   ensures [C09] upfails == old(upfails) && sferrs == old(sferrs) && !ioerr(result) ==> httperrs(r) == old(httperrs(r)) || (httpstatus(r) == 416 && iserr(result, ErrRangeNotSatisfiable))
 
 // ---------------------------------------------------------------- tunnels (C10)
 
 // A responder handed to handleHTTP carries nothing from an earlier exchange.
 //@ spec func specRespEmpty(r any) bool = forall k key :: !in(resphdr(r), k)
 
-// Not yet verified in full; what its callers must establish is stated and checked at every call.
+// handleHTTP strips the client's conditional headers before anything is fetched, and
+// hands processRequest a responder that carries nothing from an earlier exchange.
+//@ props C06 C09 C10 C16
 //@ func Proxy.handleHTTP
-//@   trusted
+//@   nopanic
+//@   assigns HeaderDirectives http.Request@proxyReq new:http.Request url.URL new:http.Response map_ ghost:upstream ghost:sfleader ghost:sfshared ghost:sferrs cache. map_map_cache.CacheKey atomic.Int64 ghost:mapsum ghost:fsinode ghost:jsize ghost:jexp ghost:handleinode ghost:isize ghost:icontent responder. ghost:httpstatus ghost:httpwrites ghost:respbody ghost:httperrs ghost:callcount metrics.
 //@   requires [C10] specRespEmpty(r)
-//@   assigns HeaderDirectives http_Request http.Request map_ cache.EntryMetadata cache.MemoryCache cache.FileCache http.Response
+//@   requires p.cfg != nil && aset(p.cfg.Proxy.RetryOnInvalidRange.value) && specFetcher(p.fetch) && proxyReq != nil && proxyReq.URL != nil && specHdrOK(proxyReq.Header)
+//@   ghost callsite-requires [C06] processRequest specNoConditionals(arg_req.Header) && arg_req == proxyReq
+//@   ensures [C16] httpwrites(r) >= old(httpwrites(r)) + 1
+//@   ensures [C09] result != nil ==> upfails > old(upfails) || sferrs > old(sferrs) || iserr(result, ErrRangeNotSatisfiable) || ioerr(result)
+//@   ensures [C09] upfails == old(upfails) && sferrs == old(sferrs) && !ioerr(result) ==> httperrs(r) == old(httperrs(r)) || (httpstatus(r) == 416 && iserr(result, ErrRangeNotSatisfiable))
 
 // Every request read from a CONNECT tunnel is answered through a responder of its own.
-//@ props C10
+//@ spec func specProxy(p ptr) bool = p.cfg != nil && aset(p.cfg.Proxy.RetryOnInvalidRange.value) && specFetcher(p.fetch) && p.ca != nil
+//@ props C10 C16
 //@ func Proxy.handleCONNECT
+//@   requires specProxy(p) && proxyReq != nil
+//@   loop 1 invariant specProxy(p) && tlsConn != nil
 
 // ---------------------------------------------------------------- relaying (C08)
 
 // The request sent to the origin keeps the client's path (also its escaped form), query and fragment.
 //@ props C08 C16
 //@ func changeRequestToTarget
-//@   assigns http.Request url.URL
+//@   assigns http.Request@req url.URL
 //@   requires req != nil && req.URL != nil
-//@   ensures req.Header == old(req.Header) && req.ctx == old(req.ctx)
+//@   ensures req.Header == old(req.Header) && req.ctx == old(req.ctx) && req.URL != nil
 //@   ensures [C08] result == nil ==> req.URL != nil && sid(req.URL.Path) == old(sid(req.URL.Path)) && sid(req.URL.RawPath) == old(sid(req.URL.RawPath)) && sid(req.URL.RawQuery) == old(sid(req.URL.RawQuery)) && sid(req.Method) == old(sid(req.Method))
 
 // None of the hop-by-hop header fields is left after removeHopByHopHeaders.
 //@ props C08 C16
 //@ func removeHopByHopHeaders
-//@   assigns map_
+//@   assigns map_@header
 //@   requires header != nil
 //@   ensures old(specHdrOK(header)) ==> specHdrOK(header)
 //@   loop 1 invariant old(specHdrOK(header)) ==> specHdrOK(header)
@@ -262,9 +373,11 @@ package proxy
 //@ props C08 C16
 //@ func sendRequestToTarget
 //@   nopanic
-//@   assigns http.Request url.URL new:http.Response map_ ghost:upstream
+//@   assigns http.Request@req url.URL new:http.Response map_ ghost:upstream
 //@   requires req != nil && req.URL != nil && req.Header != nil
 //@   ensures upcalls == old(upcalls) + 1
 //@   ensures result1 != nil ==> result0 == nil && iserr(result1, ErrSendRequestFailed) && upfails == old(upfails) + 1
 //@   ensures result1 == nil ==> result0 != nil && allocated(result0) && !old(allocated(result0)) && result0.Body != nil && specHdrOK(result0.Header) && result0.Request == req && result0 == uplast && upfails == old(upfails)
 //@   ensures upcancels >= old(upcancels) && (upcancels > old(upcancels) ==> result1 != nil && ctxcancellable(old(req.ctx)))
+//@   ensures specReqOK(req)
+//@   ensures specFetchErr(result1)
